@@ -176,6 +176,44 @@ def rule_r2(facts, col):
                 col.ok("C05.R2", key, body.where(sbb), "spawn loop ends on an empty block list, or cancels before leaving")
 
 
+def rule_r7(facts, col):
+    """a block that has finished is dropped by its own thread: the closure handed to spawn does not hand the block back in its
+    result (`Ok((b, stats))`), because dropping the block is what closes its stream ends - held in the JoinHandle until the
+    runner joins that thread, an upstream block's streams stay open while the runner is blocked joining a downstream one that
+    waits for exactly that to happen (blocks added sink-first never finish)"""
+    from ..runners import thread_side_paths, SPAWN_QS
+    n = 0
+    for b in facts.bodies:
+        for bb, t in b.calls_to(SPAWN_QS):
+            for a in t["args"]:
+                for x in walk(b.operand_expr(a)):
+                    if x.k == "agg" and x.ak == "closure" and x.q:
+                        cb = facts.by_path.get(x.q)
+                        if cb is None:
+                            continue
+                        has_work = any(True for _ in cb.calls_to(WORK))
+                        if not has_work:
+                            # the loop may live in a helper the closure calls (`run_block(b, token)`)
+                            for _, t2 in cb.calls():
+                                for q2 in Body.callee_qs(t2):
+                                    for hb in facts.by_q.get(q2, []):
+                                        if hb.kind != "closure" and any(True for _ in hb.calls_to(WORK)):
+                                            has_work = True
+                        if not has_work:
+                            continue
+                        n += 1
+                        key = "%s:thread-result" % cb.q
+                        rty = cb.locals[0]["ty"]
+                        if "dyn block::Block" in rty or "Box<dyn" in rty and "Block" in rty:
+                            col.bad("C05.R7", key, cb.where(),
+                                    "the block thread returns its block to the runner (%s): the block - and with it its stream ends - stays "
+                                    "alive until run() joins this thread, so peers that wait for those streams to close never finish when "
+                                    "they are joined first (add order decides whether run() returns)" % rty[:80], {})
+                        else:
+                            col.ok("C05.R7", key, cb.where(), "the thread's result does not carry the block: it is dropped when the thread ends")
+    return n
+
+
 def run(ctx):
     facts = ctx.facts("default")
     sites = mt_sites(facts)
@@ -189,6 +227,8 @@ def run(ctx):
     from . import c03
     c03.rule_r12(facts, ctx, rule_id="C05.R6")   # a second live window on one stream end fails depending on the peer's timing
     ctx.floor("C05.R6", 80, "read_buf()/write_buf() requests of the crate's bodies (same rule as C03.R12)")
+    rule_r7(facts, ctx)
+    ctx.floor("C05.R7", 1, "the per-block thread closure of MTGraph::run")
     ctx.floor("C05.R4", 25, "WaitForStream-on-output verdicts of blocks that consume")
     ctx.floor("C05.R1", 10, "loop-exit obligations of the MTGraph thread closure")
     ctx.floor("C05.R2", 1, "spawn loop in MTGraph::run")
